@@ -832,8 +832,156 @@ def run_early_race(ctx, res, case):
         r.close()
 
 
+# ------------------------------------------------------------------------------
+# (d) a pilot is removed on the subscriber thread while the work loop binds
+#     tasks: nothing is bound to it once the removal has been carried out
+#
+def gen_remove_race(rng, sched):
+    return {'kind': 'remove_race', 'scheduler': sched,
+            'seed': rng.randint(0, 2 ** 30),
+            'n_bulks': rng.randint(3, 8),
+            'remove_after': rng.choice([0, 0, 1, 2]),
+            'pids': ['pilot.0000', 'pilot.0001'],
+            'cores': {'pilot.0000': 4000, 'pilot.0001': 4000},
+            'events': []}
+
+
+def run_remove_race(ctx, res, case):
+    import time
+    import random
+    import threading as mt
+    from ..popsim import Perturb
+    import radical.pilot.tmgr.scheduler.round_robin as m_rr
+
+    wd   = ctx.workdir or os.getcwd()
+    rng  = random.Random(case['seed'])
+    pids = case['pids']
+    # the binding loops are slowed down (they are long for large bulks), the
+    # removal is not: it has to fit into one pass of them
+    pert = Perturb(case['seed'], 0.3,
+                   funcs=[m_rr.RoundRobin._schedule_tasks,
+                          m_bf.Backfilling._schedule_tasks,
+                          m_tbase.TMGRSchedulingComponent._assign_pilot])
+    r = Run(case, res, wd)
+    try:
+        comp, net = r.comp, r.net
+        ctl  = 'mem://c/%s' % rpc.CONTROL_PUBSUB
+        sta  = 'mem://c/%s' % rpc.STATE_PUBSUB
+        docs = [pilot_doc(p, case['cores'][p]) for p in pids]
+        net.publish(ctl, rpc.CONTROL_PUBSUB, {'cmd': 'add_pilots',
+                    'arg': {'pilots': docs, 'tmgr': OWNER}}, who='driver')
+        while net.pump(): pass
+        for p in pids:
+            for st in _PORDER[1:5]:
+                net.publish(sta, rpc.STATE_PUBSUB, {'cmd': 'update', 'arg': [
+                            {'uid': p, 'type': 'pilot', 'state': st}]},
+                            who='driver')
+        while net.pump(): pass
+
+        victim = pids[rng.randrange(len(pids))]
+        uids, errs = list(), list()
+        mark  = {'bulk': -1, 'removed_at': None}
+
+        # the moment of binding is the call of `_assign_pilot` (the forward
+        # may legitimately follow a little later, outside the lock)
+        assigned = list()
+        orig_assign = comp._assign_pilot
+
+        def assign(task, pilot):
+            with net.lock:
+                assigned.append((net.seq, task['uid'], pilot['uid']))
+            return orig_assign(task, pilot)
+        comp._assign_pilot = assign
+
+        # ... and a removal is carried out when the scheduler's own
+        # remove_pilots() (the last step of the control callback) returns
+        orig_remove = comp.remove_pilots
+
+        def remove(pids_):
+            ret = orig_remove(pids_)
+            with net.lock:
+                mark['removed_at'] = net.seq
+            return ret
+        comp.remove_pilots = remove
+
+        def worker():
+            try:
+                n = 0
+                for b in range(case['n_bulks']):
+                    bulk = list()
+                    for _ in range(rng.randint(5, 20)):
+                        uid = 'm.%03d' % n; n += 1
+                        uids.append(uid)
+                        bulk.append(task_doc(uid, None, 1))
+                    mark['bulk'] = b
+                    net.q_put('mem://c/%s' % rpc.TMGR_SCHEDULING_QUEUE,
+                              'default', bulk, who='driver')
+                    while net.q_len('mem://c/%s' % rpc.TMGR_SCHEDULING_QUEUE):
+                        comp.work_cb()
+                    time.sleep(rng.choice([0, 0.0005, 0.002]))
+            except Exception as e:
+                errs.append('work: %r' % e)
+
+        def remover():
+            rr = random.Random(case['seed'] + 7)
+            try:
+                t_end = time.time() + 5
+                while mark['bulk'] < case['remove_after'] and \
+                        time.time() < t_end:
+                    time.sleep(0.0002)
+                time.sleep(rr.choice([0, 0.0003, 0.001, 0.002]))
+                net.publish(ctl, rpc.CONTROL_PUBSUB, {'cmd': 'remove_pilots',
+                            'arg': {'pids': [victim], 'tmgr': OWNER}},
+                            who='driver')
+                while net.pump(): pass
+            except Exception as e:
+                errs.append('control: %r' % e)
+
+        a = mt.Thread(target=worker,  name='work-loop',  daemon=True)
+        b = mt.Thread(target=remover, name='subscriber', daemon=True)
+        a.start(); b.start()
+        a.join(timeout=10); b.join(timeout=2 if a.is_alive() else 10)
+        res.count('remove_race_histories')
+        ctx_ = {'case': case, 'errors': errs, 'victim': victim}
+        if a.is_alive() or b.is_alive():
+            _judge_stuck_threads(res, [a, b], 'remove-race', ctx_)
+            return
+        for e in errs:
+            res.violation('remove-race/raised', e, ctx_)
+            return
+        for e in net.errors:
+            res.violation('remove-race/callback-raised', e[2], ctx_)
+            return
+        if mark['removed_at'] is None:
+            res.inconc('remove race: the removal was never carried out')
+            return
+        late = list()
+        for seq, uid, pid in assigned:
+            res.count('remove_race_bindings_checked')
+            if pid == victim and seq > mark['removed_at']:
+                late.append(uid)
+        if late:
+            res.violation('remove-race/bound-after-removal', '%s were bound '
+                          'to %s after remove_pilots(%s) had been carried out'
+                          % (late[:5], victim, victim), ctx_)
+    finally:
+        pert.stop()
+        r.close()
+
+
 def run(ctx):
     res = Result()
+    rng = ctx.rng('remove')
+    for i in range(ctx.n(160, 12000)):
+        case = gen_remove_race(rng, 'round_robin' if i % 2 else 'backfilling')
+        try:
+            run_remove_race(ctx, res, case)
+        except RuntimeError as e:
+            res.violation('history-stuck', repr(e), {'case': case})
+        res.evaluations += 1
+        if len(res.violations) > 2:
+            break
+
     rng = ctx.rng('early')
     for i in range(ctx.n(320, 24000)):
         case = gen_early_race(rng, 'round_robin' if i % 2 else 'backfilling')
@@ -868,6 +1016,12 @@ def run(ctx):
 
 def replay(case, ctx):
     res = Result()
+    if case['case'].get('kind') == 'remove_race':
+        for _ in range(40):
+            run_remove_race(ctx, res, case['case'])
+            if res.violations:
+                break
+        return res
     if case['case'].get('kind') == 'early_race':
         for _ in range(40):
             run_early_race(ctx, res, case['case'])
